@@ -111,7 +111,7 @@ static _Atomic int  et_nwaits;
 
 #define ET_STATUS_MAX 32
 static _Atomic uint64_t et_cb_by_status[ET_STATUS_MAX];
-static _Atomic uint64_t et_cb_total, et_cb_on_lib, et_cb_chained, et_cb_late_total;
+static _Atomic uint64_t et_cb_total, et_cb_on_lib, et_cb_chained, et_cb_late_total, et_cb_cancel_then_chain;
 
 typedef struct {
   int      kind;
@@ -162,6 +162,13 @@ static void et_cb_common(et_req_t *r, int status)
     et_reqspec_t sp;
     vh_rng_seed(&g, et_case_seed ^ ((uint64_t)(r - et_reqs) * 0x9e3779b97f4a7c15ULL) ^ 0xc4a1);
     et_make_spec(&g, r->chain_kind, &sp, 0);
+    if (status != ARES_ECANCELLED && vh_chance(&g, 1, 4)) {
+      /* cancel everything, then carry on with the next request, all from inside the callback: the queue is empty
+       * for a moment in the middle of one hold of the channel lock (anyone waiting for "empty" is notified) and
+       * is not empty any more when that hold ends */
+      atomic_fetch_add_explicit(&et_cb_cancel_then_chain, 1, ET_RELAX);
+      ares_cancel(et_channel);
+    }
     atomic_fetch_add_explicit(&et_cb_chained, 1, ET_RELAX);
     et_issue(&sp, -1, et_channel, 0);
   }
